@@ -8,6 +8,7 @@ from __future__ import annotations
 from pyvc.api import contract, lemma, Loop, native
 from specs.errspec import LARKP, RENDER
 import specs.errspec  # noqa: F401
+import contracts.c09  # noqa: F401  (Procedure.__emit carries the C07 normalisation clause)
 
 LEVEL = 'proof'
 
@@ -74,3 +75,45 @@ def extra_checks(tier, seed, active_known):
 		x.violation = {'what': f'{fails[0]["case"]} ({fails[0]["where"]}) is not reported as a tranp error: {fails[0]["last_line"]}', 'function': 'rogw/tranp/implements/syntax/lark/parser.py:SyntaxParserOfLark.__load_entry', 'inputs': fails[0], 'clause': 'outcome in {ok} ∪ Errors.Error'}
 		x.finding_key = 'pipeline|syntax-boundary'
 	return [x]
+
+contract(RENDER, 'ErrorRender.Quotation.__load_line', ['C07', 'C16'], types={'self': 'ErrorRender.Quotation', 'f': 'FileObj', 'lines': 'list[str]'},
+	rewrites={"open(filepath, mode='rb')": 'open_rb(filepath)', 'f.readlines()': 'file_lines(filepath)'},
+	# the reported line must still exist in the file; -1 (virtual nodes carry span (0, 0), i.e. line index -1) addresses the last line
+	requires=['-len(file_lines(filepath)) <= line_no', 'line_no < len(file_lines(filepath))'],
+	raises={},  # Top: rendering the quotation does not fail
+	ensures=["result == file_lines(filepath)[line_no].replace('\\n', '').replace('\\t', ' ')"])
+
+
+@native
+def file_lines(p):
+	with open(p, 'rb') as f:
+		return [l.decode() for l in f.readlines()]
+
+
+@native
+def _load_line(self=None, filepath='', line_no=0):
+	from rogw.tranp.view.error_render import ErrorRender
+	q = object.__new__(ErrorRender.Quotation)
+	return q._Quotation__load_line(filepath, line_no)
+
+
+from pyvc.api import REG as _REG
+_REG.contracts[(RENDER, 'ErrorRender.Quotation.__load_line')].replay = '_load_line'
+_TMPFILES: list[str] = []
+
+
+def gen_load_line(rnd, tier):
+	import atexit, os, tempfile
+	if not _TMPFILES:
+		d = tempfile.mkdtemp(prefix='c07_lines_')
+		for i, text in enumerate(['a = 1\n\tb = 2\nlast', 'x\n', '\n\n', 'only']):
+			p = os.path.join(d, f'f{i}.py')
+			open(p, 'w').write(text)
+			_TMPFILES.append(p)
+		import shutil
+		atexit.register(lambda: shutil.rmtree(d, ignore_errors=True))
+	while True:
+		yield {'self': None, 'filepath': rnd.choice(_TMPFILES), 'line_no': rnd.randint(-4, 3)}
+
+
+TWINS = {'ErrorRender.Quotation.__load_line': gen_load_line}
